@@ -46,6 +46,15 @@ def tasks(tier):
                    over_free=True, max_unknown=None, before_sleep="call", strat_menu=[1, 0],
                    strat_free=True)
         out.append({"family": "abort-cancel", "cfg": cfg, "entry": e, "bound": 1, "weight": 3})
+    # the abort condition is a flag that becomes true at some point of the run and stays true:
+    # no attempt and no sleep may *begin* after that point
+    for hd, e in itertools.product([None, "call"], Q4 + POL + ["RetryPolicy.call", "deco", "adeco",
+                                                                "Retry.context", "AsyncRetry.context"]):
+        cfg = dict(M=M, alphabet=["ok", "x:T", "r:T"], abort=True, abort_mode="flag",
+                   handler=hd if "deco" not in e else None, handler_menu=["SLEEP"],
+                   sleeper="call" if "deco" not in e else "policy", max_unknown=None,
+                   strat_menu=[1, 0], strat_free=True)
+        out.append({"family": "abort-flag", "cfg": cfg, "entry": e, "bound": 1, "weight": 2})
     for e in POL0:
         cfg = dict(M=1, alphabet=ALPHA, abort=True)
         out.append({"family": "abort-noretry", "cfg": cfg, "entry": e, "bound": 1})
@@ -86,10 +95,14 @@ def monitor(w, cfg):
         recs = call.records
         polled_since_action = False
         aborted_at = None
+        flag_at = None
         cancelled_at = None
         cancel_obj = None
         for i, r in enumerate(recs):
             k = r[0]
+            if k == "abort_flag":
+                flag_at = i
+                continue
             if k == "poll":
                 polled_since_action = True
                 if r[1] and aborted_at is None:
@@ -105,6 +118,11 @@ def monitor(w, cfg):
                 if aborted_at is not None:
                     v.append(("c13.work-after-abort",
                               f"{k} {r[1:3]} after abort was requested"))
+                elif flag_at is not None and r[3] >= recs[flag_at][2] and not (
+                        k == "sleep" and recs[flag_at][1] == "sleep" and i == flag_at - 1):
+                    v.append(("c13.work-after-abort",
+                              f"{k} {r[1:3]} begun after the abort condition became true "
+                              f"({recs[flag_at][1]} at {recs[flag_at][2]})"))
                 if cancelled_at is not None:
                     v.append(("c13.work-after-cancel", f"{k} {r[1:3]} after a cancellation-type "
                                                        f"exception was raised"))
